@@ -1286,6 +1286,7 @@ public:
         totals(before);
         have_before = true;
         wall_mach = max_wall_mach();
+        probe_reset("max:hydro_boundary_face_mach");
       }
       if (want_reference)
         reference_begin();
@@ -1502,13 +1503,18 @@ public:
       ++stats["steps_with_positivity_clamp"];
       return;
     }
-    if (!all_periodic && wall_mach > 0.7) {
+    // Mach number with which the reconstructed face states ran into the
+    // walls in this step, as the code computed them (probe H9c)
+    const double face_mach =
+        1e-6 * (double)probe_count("max:hydro_boundary_face_mach");
+    if (!all_periodic)
+      ++stats[face_mach > 1.5   ? "wall_steps_face_mach_above_1.5"
+              : face_mach > 0.7 ? "wall_steps_face_mach_0.7_to_1.5"
+                                : "wall_steps_face_mach_below_0.7"];
+    if (!all_periodic && face_mach > 1.5) {
       // the property only promises conservation for gas running into a wall
-      // slower than 1.5 times its sound speed. The wall flux is computed from
-      // face-reconstructed states: against a mirror state the pairwise
-      // limiter lets the normal velocity at the face reach twice the cell
-      // value (density and pressure keep their cell values), so a cell Mach
-      // number of 0.7 keeps the face Mach number below 1.4
+      // slower than 1.5 times its sound speed; the wall flux is computed from
+      // face-reconstructed states, whose Mach number the code reports (H9c)
       ++stats["steps_skipped_fast_gas_at_wall"];
       return;
     }
